@@ -351,6 +351,17 @@ func (e *Env) store(h int, f avfs.File, err error) {
 	e.Files[h] = f
 }
 
+// madeUpUser is an avfs.UserReader that no identity manager knows.
+type madeUpUser struct {
+	name     string
+	uid, gid int
+}
+
+func (u madeUpUser) Name() string  { return u.name }
+func (u madeUpUser) Uid() int      { return u.uid }
+func (u madeUpUser) Gid() int      { return u.gid }
+func (u madeUpUser) IsAdmin() bool { return u.uid == 0 }
+
 // permOf converts the twelve Unix bits of an Op into a fs.FileMode.
 func permOf(bits uint32) fs.FileMode {
 	perm := fs.FileMode(bits & 0o777)
@@ -538,6 +549,9 @@ func (e *Env) exec(o Op) Res {
 		return res(nil, fmt.Sprintf("%s %d:%d", u.Name(), u.Uid(), u.Gid()))
 	case "SetUserByName":
 		return res(v.SetUserByName(o.P), "")
+	case "SetUser":
+		// an identity made up by the caller: name P, uid N, gid M (two identities may share a name)
+		return res(v.SetUser(madeUpUser{name: o.P, uid: int(o.N), gid: int(o.M)}), "")
 	case "Sub":
 		s, err := v.Sub(o.P)
 		if err != nil {
